@@ -17,7 +17,8 @@ inductive Value where
   | safe (t : SafeT) (b : Bytes)
   | int (i : Int)
   | bool (b : Bool)
-  | nil
+  | nil                         -- a nil interface value present in the data
+  | noValue                     -- reflect's invalid Value: nil data, missing map key, `{{template "x"}}` without pipeline
   | list (vs : ValueList)
   | map (kvs : KVList)          -- map[string]interface{}; keys sorted by the harness
   | ptr (v : Value)             -- non-nil pointer
@@ -58,6 +59,7 @@ def Value.sprint : Value → Option Bytes
   | .int i => some (intBytes i)
   | .bool b => some (if b then [116, 114, 117, 101] else [102, 97, 108, 115, 101])
   | .nil => some [60, 110, 105, 108, 62]
+  | .noValue => some [60, 110, 105, 108, 62]
   | .ptr v =>
     match v with
     | .safe _ b => some b             -- *T implements Stringer
